@@ -176,6 +176,8 @@ type jCase struct {
 	V2      bool   `json:"v2"`
 	Panic   bool   `json:"panic"`
 	Err     string `json:"err"`
+	Makers  []int  `json:"makers,omitempty"` // blspairs: the party that really made the k-th share
+	Side    string `json:"side,omitempty"`   // blspairs: observed side effect / non-determinism of the two identical calls
 }
 
 func twice(c *jCase, f func() error) {
@@ -225,7 +227,7 @@ func runPerturb(seed uint64, thorough bool) {
 	r := newPRNG(seed)
 	cfgs := [][2]int{{3, 2}, {4, 3}, {2, 2}}
 	if thorough {
-		cfgs = append(cfgs, [2]int{4, 2}, [2]int{4, 4}, [2]int{3, 3})
+		cfgs = append(cfgs, [2]int{4, 2}, [2]int{4, 4}, [2]int{3, 3}, [2]int{5, 3})
 	}
 	for _, cfg := range cfgs {
 		N, T := cfg[0], cfg[1]
@@ -332,6 +334,153 @@ func runPerturb(seed uint64, thorough bool) {
 				c.Pert = "rotated"
 				verdict(c, v, digest, a4, aerr4)
 			}
+		}
+		pairsCases(r, N, T, v, digest, sigs, thorough)
+	}
+}
+
+// permutations of xs: all of them when there are at most limit, otherwise limit random ones (the identity first)
+func permutations(r *prng, xs []uint16, limit int) [][]uint16 {
+	var res [][]uint16
+	n := len(xs)
+	total := 1
+	for i := 2; i <= n; i++ {
+		total *= i
+	}
+	if total <= limit {
+		var rec func(k int, cur []uint16, used []bool)
+		rec = func(k int, cur []uint16, used []bool) {
+			if k == n {
+				res = append(res, append([]uint16{}, cur...))
+				return
+			}
+			for i := 0; i < n; i++ {
+				if !used[i] {
+					used[i] = true
+					rec(k+1, append(cur, xs[i]), used)
+					used[i] = false
+				}
+			}
+		}
+		rec(0, nil, make([]bool, n))
+		return res
+	}
+	res = append(res, append([]uint16{}, xs...))
+	for len(res) < limit {
+		p := append([]uint16{}, xs...)
+		for i := n - 1; i > 0; i-- {
+			j := r.intn(i + 1)
+			p[i], p[j] = p[j], p[i]
+		}
+		res = append(res, p)
+	}
+	return res
+}
+
+// pairsCases: (signer, share) pairs handed to the PUBLIC Verifier.AggregateSignatures in every order, and re-paired.
+// makers[k] is the party whose share stands at position k, signers[k] the signer it is declared to come from.
+// Both calls (aggregate, verify) are made twice on the same inputs; the inputs are compared with copies afterwards.
+func pairsCases(r *prng, N, T int, v *bls.Verifier, digest []byte, sigs [][]byte, thorough bool) {
+	run := func(variant string, signers, makers []uint16) {
+		c := jCase{Kind: "case", Cls: "blspairs", N: N, T: T, Signers: u16s(signers), Makers: u16s(makers), Pert: variant}
+		ss := make([][]byte, len(makers))
+		for k, m := range makers {
+			ss[k] = append([]byte{}, sigs[int(m)-1]...)
+		}
+		signersIn := append([]uint16{}, signers...)
+		ssIn := make([][]byte, len(ss))
+		for k := range ss {
+			ssIn[k] = append([]byte{}, ss[k]...)
+		}
+		agg1, err1 := aggregate(v, ss, signers)
+		agg2, err2 := aggregate(v, ss, signers)
+		for k := range signers {
+			if signers[k] != signersIn[k] {
+				c.Side = "the caller's signer slice was modified by AggregateSignatures"
+			}
+		}
+		for k := range ss {
+			if string(ss[k]) != string(ssIn[k]) {
+				c.Side = "the caller's signature bytes were modified by AggregateSignatures"
+			}
+		}
+		if (err1 == nil) != (err2 == nil) || string(agg1) != string(agg2) {
+			c.Side = "two identical AggregateSignatures calls returned different results"
+		}
+		verdictOf := func(agg []byte, aerr error) (bool, string) {
+			if aerr != nil {
+				return false, "aggregate: " + aerr.Error()
+			}
+			a := append([]byte{}, agg...)
+			e1 := v.Verify(digest, a)
+			e2 := v.Verify(digest, a)
+			if (e1 == nil) != (e2 == nil) || string(a) != string(agg) {
+				c.Side = "two identical Verify calls disagree or the signature bytes were modified"
+			}
+			if e1 != nil {
+				return false, e1.Error()
+			}
+			return true, ""
+		}
+		_, pan, what := guard(func() error {
+			var e string
+			c.V1, e = verdictOf(agg1, err1)
+			c.V2, _ = verdictOf(agg2, err2)
+			c.Err = e
+			return nil
+		})
+		if pan || (err1 != nil && len(err1.Error()) > 5 && err1.Error()[:5] == "PANIC") {
+			c.Panic = true
+			c.Err += " PANIC " + what
+		}
+		emit(c)
+	}
+	limit := 24
+	lo := T - 1
+	if lo < 2 {
+		lo = 2
+	}
+	for _, S := range subsets(N, lo, N) {
+		k := len(S)
+		perms := permutations(r, S, limit)
+		for pi, p := range perms {
+			if k < T {
+				run("below_t", p, p)
+				continue
+			}
+			// each share under its own signer, pairs in this order
+			run("pairs_permuted", p, p)
+			// the same shares, in this order, declared under the ascending signer list
+			run("resorted", S, p)
+			if !thorough && pi%3 != 0 && k > 2 {
+				continue // quick tier: the re-pairings below for every third order only
+			}
+			// two shares swapped between their signers
+			i := r.intn(k)
+			j := (i + 1 + r.intn(k-1)) % k
+			m := append([]uint16{}, p...)
+			m[i], m[j] = m[j], m[i]
+			run("swap2", p, m)
+			// a share under a signer that did not make it (the maker is not in the list at all)
+			if N > k {
+				in := map[uint16]bool{}
+				for _, x := range S {
+					in[x] = true
+				}
+				var outsiders []uint16
+				for x := 1; x <= N; x++ {
+					if !in[uint16(x)] {
+						outsiders = append(outsiders, uint16(x))
+					}
+				}
+				m = append([]uint16{}, p...)
+				m[r.intn(k)] = outsiders[r.intn(len(outsiders))]
+				run("foreign_share", p, m)
+			}
+			// one signer twice (with its share twice), another one missing
+			dsig := append([]uint16{}, p...)
+			dsig[j] = dsig[i]
+			run("duplicate_signer", dsig, dsig)
 		}
 	}
 }
